@@ -110,6 +110,71 @@ pub fn run(args: &[String]) -> i32 {
             c.count();
             c.merge(opt(&m, "delete", "1") == "1");
         }
+        // the FIRST calls of a process, made by several threads at once (whatever a routine builds lazily on first use
+        // is built under contention): every thread checks its own results against the model
+        "firstcalls" => {
+            let n: usize = opt(&m, "threads", "8").parse().unwrap();
+            let salt: u64 = opt(&m, "salt", "1").parse().unwrap();
+            let barrier = std::sync::Arc::new(std::sync::Barrier::new(n));
+            let handles: Vec<_> = (0..n)
+                .map(|t| {
+                    let barrier = barrier.clone();
+                    std::thread::spawn(move || -> Result<(), String> {
+                        let mut x: u64 = 0x9e3779b97f4a7c15u64.wrapping_mul(salt + 1).wrapping_add(t as u64 * 7919);
+                        let mut next = || {
+                            x = x.wrapping_mul(6364136223846793005).wrapping_add(1442695040888963407);
+                            x
+                        };
+                        let text = b"ACGTTGCAAGCTTAGGCATCGANCGGATTACAGATTACACCAGT";
+                        barrier.wait();
+                        for round in 0..40 {
+                            for k in [31usize, 27, 16, 13, 20, 1, 5] {
+                                let code = next() >> (64 - 2 * k);
+                                let rc = kmer::kmer::KmerGenerator::rev_comp(code, k);
+                                if rc as u128 != crate::model::rc_code(code as u128, k) {
+                                    return Err(format!("thread {t} round {round}: rev_comp({code}, {k}) = {rc}, model {}", crate::model::rc_code(code as u128, k)));
+                                }
+                                let txt = kmer::numeric_to_kmer(code, k);
+                                if txt.as_bytes() != crate::model::text_of(code as u128, k).as_slice() {
+                                    return Err(format!("thread {t} round {round}: numeric_to_kmer({code}, {k}) = {txt:?}"));
+                                }
+                            }
+                            let k = 2 + (t + round) % 4;
+                            let (fwd, _inv, cols) = kmer::kmer::KmerGenerator::kmer_pos_maps(k);
+                            let index = crate::model::canon_index(k);
+                            if cols != index.len() || index.iter().enumerate().any(|(i, &c)| fwd[c as usize] != i) {
+                                return Err(format!("thread {t} round {round}: kmer_pos_maps({k}) is not the rank map of the canonical {k}-mers"));
+                            }
+                            let got: Vec<(u64, u64)> = kmer::kmer::KmerGenerator::new(text, k).collect();
+                            let exp: Vec<(u64, u64)> = crate::model::windows(text, k).iter().map(|w| (w.1 as u64, w.2 as u64)).collect();
+                            if got != exp {
+                                return Err(format!("thread {t} round {round}: KmerGenerator(k={k}) differs from the model"));
+                            }
+                            let runs: Vec<(u64, usize, usize)> = kmer::minimiser::MinimiserGenerator::new(text, 9, 4).collect();
+                            if runs != crate::model::runs(text, 9, 4) {
+                                return Err(format!("thread {t} round {round}: MinimiserGenerator(9, 4) differs from the model"));
+                            }
+                        }
+                        Ok(())
+                    })
+                })
+                .collect();
+            let mut bad = 0;
+            for h in handles {
+                match h.join() {
+                    Ok(Ok(())) => {}
+                    Ok(Err(e)) => {
+                        println!("FIRSTCALL-MISMATCH {e}");
+                        bad += 1;
+                    }
+                    Err(_) => {
+                        println!("FIRSTCALL-MISMATCH a thread panicked");
+                        bad += 1;
+                    }
+                }
+            }
+            return if bad > 0 { 1 } else { 0 };
+        }
         other => {
             eprintln!("unknown lib kind {other}");
             return 2;
